@@ -44,6 +44,20 @@ pub enum ForeignKey {
     Set(Box<ParsedValue>),
 }
 
+/// Where the value of an explicit default (`null`) comes from:
+/// the inheritance chain of the locale (`inherits` in the configuration), then the default locale.
+#[derive(Debug, Clone, Copy)]
+pub struct Fallbacks<'a> {
+    pub default_locale: &'a Key,
+    pub extensions: &'a BTreeMap<Key, Key>,
+}
+
+impl<'a> Fallbacks<'a> {
+    pub fn next(self, locale: &Key) -> &'a Key {
+        self.extensions.get(locale).unwrap_or(self.default_locale)
+    }
+}
+
 #[derive(Debug, Clone, PartialEq)]
 pub enum Literal {
     String(String, usize),
@@ -453,9 +467,7 @@ impl ParsedValue {
         foreign_key: &mut ForeignKey,
         values: &LocalesOrNamespaces,
         top_locale: &Key,
-        // the locale the target is taken from, differ from `top_locale` when the target is defaulted.
-        lookup_locale: &Key,
-        default_locale: &Key,
+        fallbacks: Fallbacks,
         key_path: &KeyPath,
     ) -> Result<()> {
         let ForeignKey::NotSet(foreign_key_path, args) = &*foreign_key else {
@@ -463,40 +475,57 @@ impl ParsedValue {
             return Ok(());
         };
 
-        let Some(value) = values.get_value_at(lookup_locale, foreign_key_path) else {
-            return Err(Error::MissingForeignKey {
-                foreign_key: foreign_key_path.to_owned(),
-                locale: top_locale.clone(),
-                key_path: key_path.to_owned(),
+        // the locale the target is taken from, differ from `top_locale` when the target is defaulted:
+        // follow the same path as `DefaultedLocales::default_of`, the inheritance chain then the default locale.
+        let mut lookup_locale = top_locale;
+        let mut visited = vec![];
+        let value = loop {
+            let value = values.get_value_at(lookup_locale, foreign_key_path);
+            match value {
+                Some(value) if !matches!(value, ParsedValue::Default) => break value,
+                // missing in the locale containing the foreign key
+                None if lookup_locale == top_locale => {
+                    return Err(Error::MissingForeignKey {
+                        foreign_key: foreign_key_path.to_owned(),
+                        locale: top_locale.clone(),
+                        key_path: key_path.to_owned(),
+                    }
+                    .into());
+                }
+                // this check is normally done in a later step for optimisations (Locale::make_builder_keys),
+                // but we still need to do it here to avoid infinite loop
+                // this case happen if a foreign key point to an explicit default in the default locale
+                // pretty niche, but would cause a rustc stack overflow if not done.
+                _ if lookup_locale == fallbacks.default_locale => {
+                    return Err(match value {
+                        Some(_) => Error::ExplicitDefaultInDefault(key_path.to_owned()),
+                        None => Error::MissingForeignKey {
+                            foreign_key: foreign_key_path.to_owned(),
+                            locale: top_locale.clone(),
+                            key_path: key_path.to_owned(),
+                        },
+                    }
+                    .into());
+                }
+                // explicit default, or not defined in a locale of the chain
+                _ => {
+                    visited.push(lookup_locale);
+                    let next = fallbacks.next(lookup_locale);
+                    lookup_locale = if visited.contains(&next) {
+                        fallbacks.default_locale
+                    } else {
+                        next
+                    };
+                }
             }
-            .into());
         };
 
-        if matches!(value, ParsedValue::Default) {
-            // this check is normally done in a later step for optimisations (Locale::make_builder_keys),
-            // but we still need to do it here to avoid infinite loop
-            // this case happen if a foreign key point to an explicit default in the default locale
-            // pretty niche, but would cause a rustc stack overflow if not done.
-            if lookup_locale == default_locale {
-                return Err(Error::ExplicitDefaultInDefault(key_path.to_owned()).into());
-            } else {
-                return Self::resolve_foreign_key_inner(
-                    foreign_key,
-                    values,
-                    top_locale,
-                    default_locale,
-                    default_locale,
-                    key_path,
-                );
-            }
-        }
-
         // possibility that the foreign key must be resolved too, in the locale it comes from
-        value.resolve_foreign_key(values, lookup_locale, default_locale, foreign_key_path)?;
+        value.resolve_foreign_key(values, lookup_locale, fallbacks, foreign_key_path)?;
 
         // possibility that args must resolve too
         for arg in args.values() {
-            arg.resolve_foreign_key(values, top_locale, default_locale, foreign_key_path)?;
+            arg.resolve_foreign_key(values, top_locale, fallbacks, foreign_key_path)?;
         }
 
         let value = value.populate(args, foreign_key_path, top_locale, key_path)?;
@@ -510,21 +539,21 @@ impl ParsedValue {
         &self,
         values: &LocalesOrNamespaces,
         top_locale: &Key,
-        default_locale: &Key,
+        fallbacks: Fallbacks,
         path: &KeyPath,
     ) -> Result<()> {
         match self {
             ParsedValue::Variable { .. } | ParsedValue::Literal(_) | ParsedValue::Default => Ok(()),
             ParsedValue::Subkeys(_) => Ok(()), // unreachable ?
             ParsedValue::Ranges(inner) => {
-                inner.resolve_foreign_keys(values, top_locale, default_locale, path)
+                inner.resolve_foreign_keys(values, top_locale, fallbacks, path)
             }
             ParsedValue::Component { inner, .. } => {
-                inner.resolve_foreign_key(values, top_locale, default_locale, path)
+                inner.resolve_foreign_key(values, top_locale, fallbacks, path)
             }
             ParsedValue::Bloc(bloc) => {
                 for value in bloc {
-                    value.resolve_foreign_key(values, top_locale, default_locale, path)?;
+                    value.resolve_foreign_key(values, top_locale, fallbacks, path)?;
                 }
                 Ok(())
             }
@@ -541,16 +570,15 @@ impl ParsedValue {
                     &mut foreign_key,
                     values,
                     top_locale,
-                    top_locale,
-                    default_locale,
+                    fallbacks,
                     path,
                 )
             }
             ParsedValue::Plurals(Plurals { forms, other, .. }) => {
                 for value in forms.values() {
-                    value.resolve_foreign_key(values, top_locale, default_locale, path)?;
+                    value.resolve_foreign_key(values, top_locale, fallbacks, path)?;
                 }
-                other.resolve_foreign_key(values, top_locale, default_locale, path)
+                other.resolve_foreign_key(values, top_locale, fallbacks, path)
             }
         }
     }
